@@ -45,6 +45,9 @@ CLAIMS = {
  "C10": ("edge-dominance and assumption-pruned reachability of the Store's construction (validation first); cycle-must-contain with verified waiter summaries and finite-iteration back edges excluded; must-pass-through of the ctx.Err() test after a failed fetch; interval reasoning on the loop-carried back-off (phi sources, doubling under v < C); phi-edge analysis of the missing counter; edge-dominance by the file-client type test",
          "Structural necessary conditions, decided on all paths: the Store is built only from a validated configuration and every declared name is checked for emptiness; every retry round passes a wait that blocks on the context or a timer; after a failed fetch the context is consulted before anything else and a dead context returns an error; the pause stays below 2C <= 10 s; only missing names are fetched, a success installs the value before moving on, every failure is counted, and nil is returned only when nothing is missing; a file-backed client never waits. Does not decide wall-clock promptness.",
          "time.After(d) fires after d; iteration over a finite collection terminates", "4/C10"),
+ "C20": ("alias/taint flow from Secret invocations to reflect.ValueOf with copying operations as sanitizers; sibling agreement of the name computation in Secrets and Apply (same callee, same operands) and of the validation and assignment type switches; loop-exit and error-flow analysis of Fields.Apply; edge-dominance of reflective accesses by the kind tests",
+         "Structural necessary conditions, decided on all paths: bytes owned by the store never reach caller memory without a copy; the names declared to the store are exactly the names later looked up (prefix/name via path.Join in both places); Apply attempts every field and reports every failure; the types accepted up front are exactly the types the assignment handles, everything else (empty names, non-structs, untagged structs, unsupported types) is rejected with an error; configured structs are applied before NewStore returns and their names are declared; strings are conversions of the bytes, Secret fields get the live handle. Does not decide behaviour over arbitrary run-time struct shapes.",
+         "bytes.Clone/slices.Clone/string(b) copy; BinaryUnmarshaler copies by contract", "4/C20"),
  "C03": ("typestate on SSA CFG paths (mutation => save => tested error before any return), value-flow of the bytes handed to the file writer, edge-dominance on the open path, JSON wire-signature computed from go/types against the frozen v1 signature, reader/writer sibling agreement",
          "Structural necessary conditions, decided on all paths: no mutator of the persistent state can return without having called the file-writing save and tested its error; what is saved is the live map, wrapped as documented; opening writes only when the file does not exist; the v1 wire layout (keys, encodings, AEAD contexts, key template, schema constant) is unchanged and reader and writer agree. Does not decide state equality after arbitrary histories nor decoding of real old files.",
          "encoding/json encodes according to the computed shape; tink keyset reader/writer are inverse; the v1 layout is the one documented on db.kv", "4/C03"),
